@@ -197,7 +197,8 @@ fn model_apply(m: &mut Model, op: Op, p: &str) -> Result<(), EC> {
     let par_ok = matches!(m.get(&parent(p)), Some(Node::Dir));
     match op {
         Op::CreateDir => { if !par_ok { return Err(EC::Other); } match m.get(p) { Some(Node::File(_)) => Err(EC::FileExists), Some(Node::Dir) => Err(EC::DirExists), None => { m.insert(p.into(), Node::Dir); Ok(()) } } }
-        Op::CreateFile => { if !par_ok { return Err(EC::Other); } match m.get(p) { Some(Node::Dir) => Err(EC::Other), _ => { m.insert(p.into(), Node::File(b"new".to_vec())); Ok(()) } } }
+        // re-creation writes FEWER bytes than the first creation, so a missing truncation shows
+        Op::CreateFile => { if !par_ok { return Err(EC::Other); } match m.get(p) { Some(Node::Dir) => Err(EC::Other), Some(Node::File(_)) => { m.insert(p.into(), Node::File(b"n".to_vec())); Ok(()) } None => { m.insert(p.into(), Node::File(b"new".to_vec())); Ok(()) } } }
         // "a target that is missing from an existing directory is reported as not-found"; below a missing / non-directory parent any error class is fine
         Op::Append => match m.get_mut(p) { Some(Node::File(b)) => { b.extend_from_slice(b"+"); Ok(()) } Some(Node::Dir) => Err(EC::Other), None => Err(if par_ok { EC::NotFound } else { EC::Other }) },
         Op::RemoveFile => match m.get(p) { Some(Node::File(_)) => { m.remove(p); Ok(()) } Some(Node::Dir) => Err(EC::Other), None => Err(if par_ok { EC::NotFound } else { EC::Other }) },
@@ -220,7 +221,7 @@ fn real_apply(root: &VfsPath, op: Op, p: &str) -> VfsResult<()> {
     let q = root.join(&p[1..])?;
     match op {
         Op::CreateDir => q.create_dir(),
-        Op::CreateFile => { let mut h = q.create_file()?; h.write_all(b"new").unwrap(); Ok(()) }
+        Op::CreateFile => { let existed = q.exists().unwrap_or(false); let mut h = q.create_file()?; h.write_all(if existed { b"n" } else { b"new" }).unwrap(); Ok(()) }
         Op::Append => { let mut h = q.append_file()?; h.write_all(b"+").unwrap(); Ok(()) }
         Op::RemoveFile => q.remove_file(),
         Op::RemoveDir => q.remove_dir(),
@@ -255,7 +256,8 @@ fn compare(root: &VfsPath, m: &Model, universe: &[&str]) -> Option<String> {
         match (q.open_file(), want) {
             (Ok(mut h), Some(Node::File(b))) => { let mut got = vec![]; h.read_to_end(&mut got).unwrap(); if &got != b { return Some(format!("read({:?}) = {:?}, model {:?}", p, got, b)); } }
             (Err(_), Some(Node::File(_))) => return Some(format!("open_file({:?}) failed on a file", p)),
-            (Ok(_), _) => return Some(format!("open_file({:?}) succeeded, model {:?}", p, want)),
+            // "a file iff it can be read": the OS lets a directory be opened, but then reading must fail
+            (Ok(mut h), _) => { let mut got = vec![]; if h.read_to_end(&mut got).is_ok() { return Some(format!("open_file({:?}) could be read ({} bytes), model {:?}", p, got.len(), want)); } }
             (Err(_), _) => {}
         }
     }
@@ -263,7 +265,7 @@ fn compare(root: &VfsPath, m: &Model, universe: &[&str]) -> Option<String> {
     None
 }
 fn universe_alias(_got: &str, _p: &str) -> bool { false }
-const UNIVERSE: [&str; 9] = ["", "/a", "/ab", "/a.b", "/a/b", "/a/b/c", "/é", "/é/x", "/.h"];
+const UNIVERSE: [&str; 10] = ["", "/a", "/ab", "/a.b", "/a/b", "/a/b/c", "/é", "/é/x", "/.h", "/a\\z"];
 fn make_backend(kind: &str) -> (VfsPath, Box<dyn Fn() -> Option<String>>) {
     match kind {
         "memory" => (MemoryFS::new().into(), Box::new(|| None)),
@@ -286,6 +288,26 @@ fn make_backend(kind: &str) -> (VfsPath, Box<dyn Fn() -> Option<String>>) {
             let lower: VfsPath = MemoryFS::new().into();
             let l2 = lower.clone();
             (OverlayFS::new(&[upper, lower]).into(), Box::new(move || { if l2.read_dir().unwrap().count() != 0 { Some("lower layer is no longer empty".into()) } else { None } }))
+        }
+        "physical" => {
+            use std::sync::atomic::{AtomicU64, Ordering};
+            static N: AtomicU64 = AtomicU64::new(0);
+            let dir = std::env::temp_dir().join(format!("vfs-oracle-{}-{}", std::process::id(), N.fetch_add(1, Ordering::SeqCst)));
+            let _ = std::fs::remove_dir_all(&dir);
+            std::fs::create_dir_all(dir.join("root")).unwrap();
+            std::fs::write(dir.join("outside"), b"keep").unwrap();
+            let d2 = dir.clone();
+            // confinement: nothing next to the root directory changes; the scratch directory is removed when the closure is dropped
+            struct Cleanup(std::path::PathBuf);
+            impl Drop for Cleanup { fn drop(&mut self) { let _ = std::fs::remove_dir_all(&self.0); } }
+            let guard = Cleanup(dir.clone());
+            (vfs::PhysicalFS::new(dir.join("root")).into(), Box::new(move || {
+                let _keep = &guard;
+                let mut names: Vec<String> = std::fs::read_dir(&d2).unwrap().map(|e| e.unwrap().file_name().to_string_lossy().into_owned()).collect(); names.sort();
+                if names != vec!["outside".to_string(), "root".to_string()] { return Some(format!("directory next to the PhysicalFS root lists {:?}", names)); }
+                if std::fs::read(d2.join("outside")).unwrap() != b"keep" { return Some("file outside the PhysicalFS root changed".into()); }
+                None
+            }))
         }
         _ => panic!("unknown backend"),
     }
@@ -388,6 +410,67 @@ fn oracle_overlay(depth: usize) -> bool {
     r.done()
 }
 
+// ------------------------------------------------------------------------------------------------ overlay union semantics (C09, C10)
+/// OverlayFS over pre-populated layers must behave like ONE plain tree initialised with the upper-shadows-lower union.
+/// Operations in the input classes of the known findings (known_findings.json) are not generated: create_dir / create_file(dir) over an
+/// entry that the upper layer does not have, type-mismatched removes, remove_dir of a non-empty directory.
+fn oracle_union(depth: usize) -> bool {
+    let mut r = Report::new("union.overlay");
+    let universe = ["", "/f", "/d", "/d/g", "/h", "/n", "/d/n", "/e"];
+    let ops = [Op::CreateDir, Op::CreateFile, Op::Append, Op::RemoveFile, Op::RemoveDir, Op::RemoveDirAll, Op::CreateDirAll];
+    let steps: Vec<(Op, &str)> = ops.iter().flat_map(|o| universe[1..].iter().map(move |p| (*o, *p))).collect();
+    let mut seqs: Vec<Vec<(Op, &str)>> = vec![vec![]];
+    for _ in 0..depth { let mut n = vec![]; for s in &seqs { for st in &steps { let mut t = s.clone(); t.push(*st); n.push(t); } } seqs = n; }
+    for upper_has_f in [false, true] {
+        'seq: for seq in &seqs {
+            let upper: VfsPath = MemoryFS::new().into();
+            let l1: VfsPath = MemoryFS::new().into();
+            let l2: VfsPath = MemoryFS::new().into();
+            l1.join("d").unwrap().create_dir().unwrap();
+            l1.join("d/g").unwrap().create_file().unwrap().write_all(b"g1").unwrap();
+            l1.join("f").unwrap().create_file().unwrap().write_all(b"f1").unwrap();
+            l1.join("e").unwrap().create_dir().unwrap();
+            l2.join("f").unwrap().create_file().unwrap().write_all(b"f2").unwrap();
+            l2.join("h").unwrap().create_file().unwrap().write_all(b"h2").unwrap();
+            l2.join("d").unwrap().create_dir().unwrap();
+            let mut m: Model = BTreeMap::new();
+            m.insert(String::new(), Node::Dir);
+            m.insert("/d".into(), Node::Dir); m.insert("/d/g".into(), Node::File(b"g1".to_vec())); m.insert("/f".into(), Node::File(b"f1".to_vec()));
+            m.insert("/e".into(), Node::Dir); m.insert("/h".into(), Node::File(b"h2".to_vec()));
+            if upper_has_f { upper.join("f").unwrap().create_file().unwrap().write_all(b"f0").unwrap(); m.insert("/f".into(), Node::File(b"f0".to_vec())); }
+            let ov: VfsPath = OverlayFS::new(&[upper.clone(), l1, l2]).into();
+            // filter out the input classes of the known findings (evaluated on the model / upper layer as the sequence proceeds)
+            let mut probe = m.clone();
+            for (op, p) in seq {
+                let in_upper = |q: &str| upper.join(&q[1..]).unwrap().exists().unwrap_or(false);
+                let _ = in_upper;
+                let skip = match op {
+                    Op::CreateDir | Op::CreateDirAll => probe.contains_key(*p) || p.split('/').filter(|c| !c.is_empty()).scan(String::new(), |acc, c| { *acc = format!("{}/{}", acc, c); Some(acc.clone()) }).any(|pre| matches!(probe.get(&pre), Some(Node::File(_)))),
+                    Op::CreateFile => matches!(probe.get(*p), Some(Node::Dir)),
+                    Op::RemoveFile => matches!(probe.get(*p), Some(Node::Dir)),
+                    Op::RemoveDir => matches!(probe.get(*p), Some(Node::File(_))) || !children(&probe, p).is_empty(),
+                    _ => false,
+                };
+                if skip { continue 'seq; }
+                let _ = model_apply(&mut probe, *op, p);
+            }
+            r.case();
+            let res = catch_unwind(AssertUnwindSafe(|| {
+                for (i, (op, p)) in seq.iter().enumerate() {
+                    let want = model_apply(&mut m, *op, p);
+                    let got = real_apply(&ov, *op, p);
+                    if got.is_ok() != want.is_ok() { return Some(format!("step {} {:?}({:?}): got {:?}, union model {:?}", i, op, p, got.map_err(|e| e.to_string()), want)); }
+                    if let (Err(e), Err(EC::NotFound)) = (&got, &want) { if class_of(e) != EC::NotFound { return Some(format!("step {} {:?}({:?}): error class {:?}, expected FileNotFound", i, op, p, e.kind())); } }
+                    if let Some(d) = compare(&ov, &m, &universe) { return Some(format!("after step {} {:?}({:?}): {}", i, op, p, d)); }
+                }
+                None
+            }));
+            match res { Err(_) => r.fail(format!("upper_has_f={} {:?}", upper_has_f, seq), "panicked".into()), Ok(Some(d)) => r.fail(format!("upper_has_f={} {:?}", upper_has_f, seq), d), Ok(None) => {} }
+        }
+    }
+    r.done()
+}
+
 // ------------------------------------------------------------------------------------------------ transfers (C11)
 fn oracle_transfer() -> bool {
     let mut r = Report::new("transfer");
@@ -431,6 +514,56 @@ fn oracle_transfer() -> bool {
     r.done()
 }
 
+// ------------------------------------------------------------------------------------------------ copy_dir / move_dir (C11)
+fn oracle_copydir() -> bool {
+    let mut r = Report::new("copydir");
+    // source trees: entries whose names repeat / extend the source directory's name, empty directories, nested and binary files, dot names
+    let trees: Vec<Vec<(&str, Option<&[u8]>)>> = vec![
+        vec![],
+        vec![("x", Some(b"1"))],
+        vec![("data", None), ("data/data", Some(b"dd")), ("database.bin", Some(&[0xff, 0x00])), ("sub", None), ("sub/deep", None), ("sub/deep/f", Some(b"f")), (".hid", Some(b"h")), ("empty", None)],
+    ];
+    for tree in &trees {
+        for same in [true, false] {
+            for mv in [false, true] {
+                for dest_exists in [false, true] {
+                    r.case();
+                    let a: VfsPath = MemoryFS::new().into();
+                    let b: VfsPath = if same { a.clone() } else { MemoryFS::new().into() };
+                    let src = a.join("data").unwrap();
+                    src.create_dir().unwrap();
+                    for (p, c) in tree { let q = src.join(p).unwrap(); match c { None => q.create_dir().unwrap(), Some(bytes) => { q.create_file().unwrap().write_all(bytes).unwrap(); } } }
+                    b.join("keep").unwrap().create_file().unwrap().write_all(b"k").unwrap();
+                    let dst = b.join("out").unwrap();
+                    if dest_exists { dst.create_dir().unwrap(); }
+                    let what = format!("tree={:?} same_fs={} move={} dest_exists={}", tree.iter().map(|t| t.0).collect::<Vec<_>>(), same, mv, dest_exists);
+                    let before = snapshot(&src);
+                    let res: Result<Option<u64>, String> = catch_unwind(AssertUnwindSafe(|| if mv { src.move_dir(&dst).map(|_| None) } else { src.copy_dir(&dst).map(Some) })).map_err(|_| "panic".to_string()).and_then(|x| x.map_err(|e| e.to_string()));
+                    if dest_exists {
+                        if res.is_ok() { r.fail(what.clone(), "existing destination was not refused".into()); }
+                        if snapshot(&src) != before || dst.read_dir().unwrap().count() != 0 { r.fail(what.clone(), "refused transfer had side effects".into()); }
+                    } else {
+                        match res {
+                            Err(e) => r.fail(what.clone(), format!("failed: {}", e)),
+                            Ok(count) => {
+                                let rel = |v: &Vec<(String, Option<Vec<u8>>, Option<std::time::SystemTime>, Option<std::time::SystemTime>)>, pre: &str| -> Vec<(String, Option<Vec<u8>>)> { v.iter().map(|(p, c, _, _)| (p[pre.len()..].to_string(), c.clone())).collect() };
+                                let got = rel(&snapshot(&dst), "/out");
+                                let want = rel(&before, "/data");
+                                if got != want { r.fail(what.clone(), format!("destination tree {:?}, expected {:?}", got.iter().map(|x| &x.0).collect::<Vec<_>>(), want.iter().map(|x| &x.0).collect::<Vec<_>>())); }
+                                if let Some(n) = count { if n != tree.len() as u64 { r.fail(what.clone(), format!("copy_dir returned {}, expected {}", n, tree.len())); } }
+                                if mv { if src.exists().unwrap() { r.fail(what.clone(), "source still exists after move_dir".into()); } }
+                                else if snapshot(&src) != before { r.fail(what.clone(), "source changed by copy_dir".into()); }
+                            }
+                        }
+                    }
+                    if b.join("keep").unwrap().read_to_string().unwrap() != "k" { r.fail(what.clone(), "an unrelated file changed".into()); }
+                }
+            }
+        }
+    }
+    r.done()
+}
+
 fn main() {
     let args: Vec<String> = std::env::args().skip(1).collect();
     let deep = args.iter().any(|a| a == "--deep");
@@ -444,10 +577,14 @@ fn main() {
             "tree.memory" => oracle_tree("memory", if deep { 3 } else { 2 }, deep),
             "tree.altroot" => oracle_tree("altroot", if deep { 3 } else { 2 }, deep),
             "tree.overlay" => oracle_tree("overlay", 2, false),
+            "tree.physical" => oracle_tree("physical", 2, false),
+            "composite.physical" => oracle_tree("physical", 2, true),
             "composite.memory" => oracle_tree("memory", 2, true),
             "composite.altroot" => oracle_tree("altroot", 2, true),
             "overlay" => oracle_overlay(if deep { 2 } else { 1 }),
+            "union.overlay" => oracle_union(if deep { 3 } else { 2 }),
             "transfer" => oracle_transfer(),
+            "copydir" => oracle_copydir(),
             other => { println!("UNKNOWN {}", other); false }
         };
     }
